@@ -107,7 +107,58 @@ def ep_thread(prog: Program) -> RuleResult:
                     f"every element of {st.over_collection} is evaluated from the same bindings {sorted(st.arg0.may)} and the results are combined into one row: "
                     f"expressions over a shared unbound variable are enumerated independently (cross product) and a row mixes values of different assignments",
                 )
+    # (c) helpers that thread the bindings through a recursion of their own (the arguments of a call, one after the other): the
+    # bindings handed to the next step derive from the result at hand on *every* path - `known or var_val.bindings` hands the third
+    # argument the bindings from before the second, so sums_to(9, x.a, x.b) is computed from the a of one x and the b of another
+    from ..model import walk_local
+    from ..astutil import call_name, site
+
+    n_rec = 0
+    for f in sorted(prog.functions.values(), key=lambda x: x.qual):
+        if ".entity_query_language." not in f.qual or f.cls is None:
+            continue
+        for lp in [x for x in walk_local(f.node) if isinstance(x, ast.For) and isinstance(x.target, ast.Name) and isinstance(x.iter, ast.Call) and call_name(x.iter) == "_evaluate__" and x.iter.args]:
+            src_param = x_id(lp.iter.args[0])
+            if src_param not in f.params:
+                continue
+            pos = f.params.index(src_param) - 1
+            for c in [c for b in lp.body for c in ast.walk(b) if isinstance(c, ast.Call) and isinstance(c.func, ast.Attribute) and c.func.attr == f.name and x_id(c.func.value) == f.params[0]]:
+                arg = c.args[pos] if 0 <= pos < len(c.args) else next((k.value for k in c.keywords if k.arg == src_param), None)
+                if arg is None:
+                    continue
+                n_rec += 1
+                single = {}
+                for y in walk_local(f.node):
+                    if isinstance(y, ast.Assign) and len(y.targets) == 1 and isinstance(y.targets[0], ast.Name):
+                        single.setdefault(y.targets[0].id, []).append(y.value)
+
+                def must(e, depth=0):
+                    if isinstance(e, ast.BoolOp):
+                        return all(must(v, depth) for v in e.values)
+                    if isinstance(e, ast.IfExp):
+                        return must(e.body, depth) and must(e.orelse, depth)
+                    if isinstance(e, ast.Dict):
+                        return any(k is None and must(v, depth) for k, v in zip(e.keys, e.values))
+                    if isinstance(e, ast.Name):
+                        if e.id == lp.target.id:
+                            return True
+                        return depth < 3 and e.id in single and all(must(v, depth + 1) for v in single[e.id])
+                    if isinstance(e, (ast.Attribute, ast.Subscript)):
+                        return must(e.value, depth)
+                    if isinstance(e, ast.Call):
+                        return isinstance(e.func, ast.Attribute) and must(e.func.value, depth)
+                    return False
+
+                r.check(must(arg), f"{f.short}#next-step<-{lp.target.id}", site(f, c), src(arg)[:80], f"the next step receives bindings derived from {lp.target.id} on every path",
+                        f"the recursion over the remaining sub-expressions is continued with `{src(arg)[:60]}`, which on some path is not derived from the result `{lp.target.id}` at hand: a later "
+                        "argument does not see a variable an earlier one bound, the call is computed from values of two different assignments and the row reports only one of them")
+    if n_rec < 1:
+        raise AnalysisError("EP-THREAD: no helper threads bindings through a recursion over `_evaluate__` results (Variable._generate_child_vars_values_from_ is the confirmed instance)")
     return r
+
+
+def x_id(e):
+    return e.id if isinstance(e, ast.Name) else None
 
 
 def negatable_operators(prog: Program) -> List[ClassInfo]:
